@@ -171,6 +171,33 @@ def run_case(desc, seed):
             if bd[cut] > min(len(left), len(right)):
                 viol.append({"sig": f"C20:table:bond-exceeds-partial-terms:{algo}",
                              "msg": f"cut {cut}: bond dim {bd[cut]} > min({len(left)},{len(right)})"})
+    # the same table as a tree operator on the linear tree, with one extra term whose coefficient is exactly zero and which links a left and a
+    # right partial term that no other term links: a zero-coefficient term is no term, the bonds must stay at the minimum cover
+    if len(uniq) >= 2 and n >= 2:
+        extra = (uniq[0][0],) + tuple(uniq[1][1:])
+        if extra not in uniq and any(extra):
+            from mc import trees as TR
+            from renormalizer.tn import TTNO
+            for algo in ALGOS:
+                try:
+                    tree = TR.build_basis_tree(list(range(-1, n - 1)), [[i] for i in range(n)], list(fam.basis))
+                    terms0 = [fam.term(r, f) for r, f in zip(table, factors)] + [fam.term(extra, 0.0)]
+                    ttno = TTNO(tree, terms0, algo=algo)
+                    tb = list(ttno.bond_dims)
+                except Exception as e:
+                    viol.append({"sig": f"C20:tree-table:exception:{type(e).__name__}", "msg": f"TTNO(linear tree, terms + zero-coefficient term, algo={algo}) raised {e!r}"})
+                    continue
+                for cut in range(1, n):
+                    left = sorted(set(r[:cut] for r in uniq))
+                    right = sorted(set(r[cut:] for r in uniq))
+                    masks = [0] * len(left)
+                    for r in uniq:
+                        masks[left.index(r[:cut])] |= 1 << right.index(r[cut:])
+                    mc = G.min_cover_size(masks)
+                    if tb[cut] != mc:
+                        viol.append({"sig": f"C20:tree-table:bond-not-minimum:zero-coefficient-term:{algo}",
+                                     "msg": f"linear tree, terms {table} + a zero-coefficient term {extra}: bond of node {cut} has dimension {tb[cut]}, minimum cover of the non-zero terms {mc}; bond dims {tb}"})
+                        break
     # graphs seen at the call boundary
     for adj, algo in recorded:
         nV = max((max(a) for a in adj if a), default=-1) + 1
